@@ -8,6 +8,7 @@ QDEFS = [
     ("choice", "{ q(P,V) } :- dq(P,V).", [["dq", 2], ["grp", 1]]),
     ("derived", "{ s(P,V) } :- dq(P,V). q(P,V) :- s(P,V), not blk(V).", [["dq", 2], ["grp", 1], ["blk", 1]]),
     ("input", "", [["q", 2], ["grp", 1]]),
+    ("choice_base", "{ q(P,V) } :- dq(P,V). q(P,V) :- base(P,V).", [["dq", 2], ["grp", 1], ["base", 2]]),
     ("choice_cond", "{ q(P,V) : dq(P,V) } :- grp(P).", [["dq", 2], ["grp", 1]]),
 ]
 
@@ -18,6 +19,7 @@ def agg_rules(tier: str):
     """(name, text with {F} placeholder, result predicate signature or None)"""
     out = [
         ("eq", "r(P,X) :- grp(P), X = #{F} {{ V : q(P,V) }}.", "r2"),
+        ("eq_swapped", "r(X,P) :- grp(P), X = #{F} {{ V : q(P,V) }}.", "r2s"),
         ("eq_rev", "r(P,X) :- grp(P), #{F} {{ V : q(P,V) }} = X.", "r2"),
         ("eq_nogrp", "r(X) :- X = #{F} {{ V : q(P,V) }}.", "r1"),
         ("eq_tuple", "r(P,X) :- grp(P), X = #{F} {{ V,W : q(P,V), dq(P,W) }}.", "r2"),
@@ -63,6 +65,13 @@ USERS = [
     ("weak_guard", ":~ r(P,X), X > -9, X < 9. [X@1,P]", ["r2"]),
     ("min1_guard", "#minimize {{ X@1 : r(X), X > -9, X < 9 }}.", ["r1"]),
     ("sum1_guard", "u(S) :- S = #sum {{ X : r(X), X > -9, X < 9 }}.", ["r1"]),
+    ("weak_realguard", ":~ r(P,X), X > 1, X < 9. [X@1,P]", ["r2"]),
+    ("sum_realguard", "u(S) :- S = #sum {{ X,P : r(P,X), X > 1, X < 9 }}.", ["r2"]),
+    ("min_realguard", "#minimize {{ X@1,P : r(P,X), X > 1, X < 9 ; 1@1,P : grp(P) }}.", ["r2"]),
+    ("weak_otherlit", ":~ r(P,X), X > -9, X < 9, not dq(P,2). [X@1,P]", ["r2"]),
+    ("swapped_weak", ":~ r(X,P), X > -9, X < 9. [X@1,P]", ["r2s"]),
+    ("swapped_sum", "u(S) :- S = #sum {{ X,P : r(X,P), X > -9, X < 9 }}.", ["r2s"]),
+    ("swapped_min", "#minimize {{ X@1,P : r(X,P), X > -9, X < 9 }}.", ["r2s"]),
     ("body_use", "u(P) :- r(P,X), X >= 2.", ["r2"]),
 ]
 
@@ -74,6 +83,8 @@ def universe(qname: str, tier: str) -> list[str]:
         u += [f"{pre}(1,2)"]
     if qname == "derived":
         u += ["blk(3)"]
+    if qname == "choice_base":
+        u = ["grp(1)", "grp(2)", "dq(1,3)", "dq(2,-1)", "dq(2,3)", "base(1,1)", "base(2,0)"]
     return u
 
 
@@ -88,7 +99,7 @@ def jobs(tier: str):
                     for uname, utext, needs in USERS:
                         if needs and sig not in needs:
                             continue
-                        if tier == "quick" and qname in ("derived", "choice_cond") and uname not in ("none", "min_guard", "sum_guard"):
+                        if tier == "quick" and qname in ("derived", "choice_cond") and uname not in ("none", "min_guard", "sum_guard", "weak_realguard", "swapped_weak"):
                             continue
                         if tier == "quick" and qname == "input" and uname != "none":
                             continue
